@@ -39,6 +39,7 @@ def gen_dim(rng, big):
     return rng.randint(4, 9)
 
 def gen_obj(rng, kind, nonfinite, big=True):
+    """object wire: kind, dims, 64-bit value words"""
     w = lambda x: lex.d2w(x)
     if kind == 0:
         n = gen_dim(rng, big); return [0, n] + [w(gen_value(rng, nonfinite)) for _ in range(n)]
@@ -118,7 +119,18 @@ def moutcome(oc):
 def ints(line):
     return [int(t) for t in line.split()] if not line.startswith("CRASH") else [90]
 
+def tex_applies(sfx, kind, data):
+    """the tex reader is what load() runs: .tex name, or any name once auto-detection sees the magic (Matrix target only handled)"""
+    if not (lex.starts_with_magic(data[:32].split(b"\0")[0]) and kind == 1 and lex.tex_view(data)[1]): return False
+    # counts beyond 10^6 would make the extracted model build a unary number: left to the class-only comparison
+    for t in data.split():
+        oi, iv, pi = lex.extract_uint(t, 0, 32)
+        if (oi and iv > 10 ** 6) or (not oi and pi > 0 and t[:pi].lstrip(b"+-").isdigit()): return False
+    return True
+
 def model_load_line(order, sfx, kind, data):
+    if tex_applies(sfx, kind, data):
+        return "c07 5 %s" % " ".join(map(str, lex.tex_view(data)[0]))
     return "c07 3 %s %d %d %s" % (" ".join(map(str, order)), sfx, kind, " ".join(map(str, lex.file_wire(lex.file_view(data)))))
 
 def get_order(hb, workdir):
@@ -141,8 +153,9 @@ def same_value(a, b):
 def gen_rt_cases(rng, n):
     cases = []
     for _ in range(n):
-        fmt = 0 if rng.random() < 0.55 else 1
+        fmt = 0 if rng.random() < 0.5 else 1
         kind = rng.randint(0, 3)
+        if rng.random() < 0.12: fmt, kind = 2, 1
         o = gen_obj(rng, kind, nonfinite=(fmt == 0))
         tk = kind if rng.random() < 0.7 else rng.randint(0, 3)
         cases.append((fmt, o, tk))
@@ -152,6 +165,9 @@ def exhaustive_small(rng):
     """every kind x small shape x target kind for bin and txt (the case splits of the proofs)"""
     cases = []
     w = lex.d2w
+    for nl in range(0, 4):
+        for nc in range(0, 4):
+            cases.append((2, [1, nl, nc] + [w(float(10 * i + j) + 0.5) for j in range(nc) for i in range(nl)], 1))
     for fmt in (0, 1):
         for n in range(0, 5):
             vs = [w(float(k + 1) + 0.25) for k in range(n)]
@@ -188,10 +204,10 @@ def run_rt(ck, hb, order, cases, stats):
     # model: encoding + load on the view of the bytes the library wrote
     mlines = []
     for (fmt, o, tk), (st, data, oc) in zip(cases, impl):
-        mlines.append("c07 %d %s" % (1 if fmt == 0 else 2, " ".join(map(str, mobj(o)))))
+        mlines.append("c07 %d %s" % ({0: 1, 1: 2, 2: 6}[fmt], " ".join(map(str, mobj(o)))))
         mlines.append(model_load_line(order, fmt, tk, data if data is not None else b""))
     mo = core.run_model(mlines)
-    words = [v for (fmt, o, tk) in cases if fmt == 1 for v in obj_values(o)]
+    words = [v for (fmt, o, tk) in cases if fmt in (1, 2) for v in obj_values(o)]
     rnd = rnd6_batch(hb, ck.workdir, words)
     for n, ((fmt, o, tk), (st, data, oc)) in enumerate(zip(cases, impl)):
         line = lines[n]
@@ -202,7 +218,7 @@ def run_rt(ck, hb, order, cases, stats):
             ck.violation("save fails: %s %s" % (FN[fmt], describe(o)), "save raised %s for %s" % (ERR.get(st, st), tag),
                          dict(kind="roundtrip", cases=[line])); continue
         # (a) encoding
-        mbytes = bytes(enc[2:]) if fmt == 0 else lex.render_tokens(enc)
+        mbytes = bytes(enc[2:]) if fmt == 0 else lex.render_tokens(enc) if fmt == 1 else lex.render_tex(enc)
         if mbytes != data:
             stats["mism"] += 1
             ck.violation("encoding differs: %s %s" % (FN[fmt], describe(o)),
@@ -219,7 +235,7 @@ def run_rt(ck, hb, order, cases, stats):
         # (c) the property's own relation on the implementation
         if oc and oc[0] != 0: stats["errors"] += 1
         if tk == o[0]:
-            amb = bin_ambiguous(o) if fmt == 0 else txt_ambiguous(o)
+            amb = bin_ambiguous(o) if fmt == 0 else txt_ambiguous(o) if fmt == 1 else (o[1] == 0 or o[2] == 0)
             expect = o if fmt == 0 else obj_map_values(o, lambda x: rnd.get(x, x))
             if oc[0] == 0:
                 if oc[1:] != expect:
@@ -259,6 +275,37 @@ def run_mat(ck, hb, rng, n, stats):
         elif oc[1:] != o:
             ck.violation("matlab roundtrip changes the object: %s" % describe(o),
                          "PROPERTY: %s reloaded with other dimensions/values: saved %s loaded %s" % (tag, o[:10], oc[1:11]), dict(kind="mat", cases=[line]))
+    return len(cases)
+
+# ---------- MATLAB sparse: CSC arrays as stored by libmatio vs the model ----------
+def run_csc(ck, hb, rng, n, stats):
+    cases = [gen_obj(rng, 3, nonfinite=True, big=False) for _ in range(n)]
+    w = lex.d2w
+    cases += [[3, 2, 3, 2, 0, 1, w(0.0), 1, 2, w(-0.0)], [3, 1, 1, 1, 0, 0, w(-0.0)], [3, 3, 3, 0], [3, 4, 2, 3, 0, 1, w(1.5), 3, 0, w(2.5), 3, 1, w(0.0)]]
+    lines = ["c07 9 %s" % " ".join(map(str, o)) for o in cases]
+    rc, io, err = core.run_harness(hb, lines, ck.workdir, tag="csc")
+    mo = core.run_model(["c07 7 %s" % " ".join(map(str, mobj(o))) for o in cases])
+    for o, line, il, ml in zip(cases, lines, io, mo):
+        out = ints(il); m = ints(ml)
+        stats["dist"]["csc/Sparse"] = stats["dist"].get("csc/Sparse", 0) + 1
+        tag = "mat %s" % describe(o); rep = dict(kind="csc", cases=[line])
+        if out[0] != 0 or (len(out) > 1 and out[1] == -1):
+            ck.violation("matlab sparse save fails: %s" % describe(o), "PROPERTY: %s: save/reopen failed (%s)" % (tag, out[:2]), rep); continue
+        # impl: nl nc nir ir njc jc ndata data | outcome ; model: same with data as halves
+        p = 1; nl, nc = out[p], out[p + 1]; p += 2
+        nir = out[p]; ir = out[p + 1:p + 1 + nir]; p += 1 + nir
+        njc = out[p]; jc = out[p + 1:p + 1 + njc]; p += 1 + njc
+        nd = out[p]; data = out[p + 1:p + 1 + nd]; p += 1 + nd
+        oc = out[p:]
+        impl_arrays = [0, nl, nc, nir] + ir + [njc] + jc + [nd] + [h for x in data for h in lex.halves(x)]
+        if m[:len(impl_arrays)] != impl_arrays:
+            stats["mism"] += 1
+            ck.violation("csc arrays differ: %s" % describe(o), "the (ir, jc, data) stored in the MATLAB file differ from the model's write_csc for %s: impl ir=%s jc=%s, model %s" % (tag, ir[:8], jc[:8], m[:20]), rep)
+        elif m[len(impl_arrays):] != moutcome(oc):
+            stats["mism"] += 1
+            ck.violation("csc read differs: %s" % describe(o), "read_sparse and the model's read_csc disagree for %s: impl %s model %s" % (tag, oc[:10], m[len(impl_arrays):][:10]), rep)
+        if oc and (oc[0] != 0 or oc[1:] != o):
+            ck.violation("matlab roundtrip changes the object: %s" % describe(o), "PROPERTY: %s reloaded as %s %s" % (tag, outcome_str(oc), oc[1:10]), rep)
     return len(cases)
 
 # ---------- om_matrix_convert ----------
@@ -357,8 +404,9 @@ def main(replay=None):
     cases = corpus + exhaustive_small(ck.rng) + gen_rt_cases(ck.rng, 700 if quick else 6000)
     run_rt(ck, hb, order, cases, stats)
     nmat = run_mat(ck, hb, ck.rng, 60 if quick else 600, stats)
+    ncsc = run_csc(ck, hb, ck.rng, 60 if quick else 500, stats)
     ncv = run_convert(ck, hb, bdir, ck.rng, 60 if quick else 500, stats)
-    ck.cov.update(evaluations=len(cases) + nmat + ncv, distinct_nontrivial=len(stats["nontrivial"]),
+    ck.cov.update(evaluations=len(cases) + nmat + ncv + ncsc, csc_cases=ncsc, distinct_nontrivial=len(stats["nontrivial"]),
                   rule="round-trip cases kind x {bin,txt} x shape (all shapes <=4 exhaustively x all target kinds; random dims biased to 0/1/2/3, to sizes whose first header byte is a digit/newline (10,13,32,48..57), up to 300 rows; sparsity patterns empty/single/half/full/random; values: signed zeros, 1e+-300, integers, random decades, NaN/Inf for bin/mat); 30% cross-kind loads; non-trivial = same-kind case with at least one stored value; distinct = distinct case lines",
                   samples=[rt_line(c)[:300] for c in cases[len(cases) // 2:len(cases) // 2 + 3]], op_distribution=stats["dist"],
                   error_outcomes=stats["errors"], correspondence_mismatches=stats["mism"], unmodelled_outcomes=stats["unmodelled"],
